@@ -49,7 +49,7 @@ MixedPool == {TCls("int"), TCls(CB), TNone, TList(TCls("int")), TList(TAny), TDi
 BigUnions(P, lo, hi) == UNION {KUnions(P, n) : n \in lo..hi}
 
 CtxUser == {TCls("zutil.A"), TCls("zutil.zutil"), TCls("zutil.Outer.Inner"), TCls("zpkg.zutil.B"), TCls("zpkg.zutil.A"),
-            TCls("zfoo.Baz"), TCls("barzfoo.Qux"), TCls("_io.StringIO")}
+            TCls("zfoo.Baz"), TCls("barzfoo.Qux"), TCls("zfoo_v2.W"), TCls("_io.StringIO")}
 CtxAtoms == CtxUser \cup {TCls("int"), TNone}
 
 TD1(fs) == TTD(fs)
